@@ -116,7 +116,7 @@ class C16(core.Prop):
         'prediction executors, manager queues, spawned pools of 1-4 forked workers) over 1-3 applications selecting 1-3 model '
         'instances with distinct states, seeded per-request processing delays (0-30 ms inside the model actor) and arrival '
         'offsets, a slowed inventory listing to widen the descriptor-lookup window, with unknown-application / '
-        'unsupported-encoding / missing-feature requests injected at random positions; observed: what every caller received '
+        'unsupported-encoding / missing- or misnamed-feature / unsupported-accept requests injected at random positions, permuted columns; observed: what every caller received '
         'and the instrumented scheduling trace (submit / take / finish / deliver per executor), which is replayed as a run of '
         'the model. Non-trivial = a batch of >= 4 requests over >= 2 instances or with a failing request.'
     )
